@@ -224,6 +224,21 @@ def plain_upload(u):
             saved = fh.read()
         if saved != data:
             return ('file', u.raw_filename, ct, saved, 'save() into a directory wrote other bytes')
+        # saving the same upload there again is refused (no overwrite) - and leaves what was saved before as it is
+        u.file.seek(0)
+        try:
+            u.save(d)
+            refused = False
+        except OSError:
+            refused = True
+        still = os.listdir(d)
+        if refused:
+            if still != names or open(os.path.join(d, names[0]), 'rb').read() != data:
+                return ('file', u.raw_filename, ct, data, f'a refused second save() changed what the first one had written: directory now holds {still!r}')
+        u.file.seek(0)
+        u.save(d, overwrite=True)
+        if open(os.path.join(d, names[0]), 'rb').read() != data:
+            return ('file', u.raw_filename, ct, data, 'save(overwrite=True) wrote other bytes')
         SAVED['n'] = SAVED.get('n', 0) + 1
     finally:
         shutil.rmtree(d, ignore_errors=True)
